@@ -36,6 +36,13 @@ SOFTWARE.
 #define CAT_WRITE_STATE_MAIN_BUFFER (1U)
 #define CAT_WRITE_STATE_AFTER (2U)
 
+#ifdef CAT_VERIF
+extern void cat_verif_phase(struct cat_object *self, int phase);
+#define CAT_VERIF_PHASE(self, phase) cat_verif_phase((self), (phase))
+#else
+#define CAT_VERIF_PHASE(self, phase) ((void)0)
+#endif
+
 static inline char* get_atcmd_buf(struct cat_object *self)
 {
         return (char*)self->desc->buf;
@@ -82,6 +89,7 @@ static void unsolicited_reset_state(struct cat_object *self)
         self->unsolicited_fsm.cmd = NULL;
         self->unsolicited_fsm.cmd_type = CAT_CMD_TYPE_NONE;
         self->unsolicited_fsm.state = CAT_UNSOLICITED_STATE_IDLE;
+        CAT_VERIF_PHASE(self, 4);
 }
 
 static cat_status is_busy(struct cat_object *self)
@@ -1968,6 +1976,7 @@ static void check_unsolicited_buffers(struct cat_object *self)
                 return;
 
         self->unsolicited_fsm.cmd_type = type;
+        CAT_VERIF_PHASE(self, 3);
 
         switch (type) {
         case CAT_CMD_TYPE_READ:
@@ -2584,7 +2593,9 @@ cat_status cat_service(struct cat_object *self)
         if ((self->mutex != NULL) && (self->mutex->lock() != 0))
                 return CAT_STATUS_ERROR_MUTEX_LOCK;
 
+        CAT_VERIF_PHASE(self, 1);
         unsolicited_stat = unsolicited_events_service(self);
+        CAT_VERIF_PHASE(self, 2);
 
         switch (self->state) {
         case CAT_STATE_ERROR:
@@ -2675,6 +2686,7 @@ cat_status cat_service(struct cat_object *self)
                 break;
         }
 
+        CAT_VERIF_PHASE(self, 0);
         if ((unsolicited_stat != CAT_STATUS_OK) || (is_unsolicited_fsm_busy(self) != false)) {
                 s = CAT_STATUS_BUSY;
         }
